@@ -1017,6 +1017,47 @@ def get_code(node: ast.AST | Range, source: str) -> str:
     return source[start_charno:end_charno]
 
 
+# Builtins whose result does not depend on the order in which their argument is iterated
+_ORDER_INSENSITIVE_BUILTINS = frozenset({"all", "any", "bool", "frozenset", "len", "max", "min", "set", "sorted"})
+_PLAIN_DATA_TYPES = (type(None), bool, int, float, complex, str, bytes, range, slice, type(Ellipsis))
+
+
+def _require_reproducible_iteration(value) -> None:
+    """Raise ValueError if the order in which value is iterated depends on the hash seed.
+
+    That is the case for sets of strings (bytes, tuples, ...): list({"a", "b"}) is ["a", "b"] in one
+    interpreter process and ["b", "a"] in the next.
+    """
+    if isinstance(value, (set, frozenset)):
+        if any(not isinstance(item, (int, float, complex)) for item in value):
+            raise ValueError("The iteration order of a set depends on the hash seed")
+
+    elif isinstance(value, (tuple, list)):
+        for item in value:
+            _require_reproducible_iteration(item)
+
+    elif isinstance(value, dict):
+        for key, item in value.items():
+            _require_reproducible_iteration(key)
+            _require_reproducible_iteration(item)
+
+
+def _require_reproducible_text(value) -> None:
+    """Raise ValueError if str(value) may contain a memory address, or depends on the hash seed."""
+    _require_reproducible_iteration(value)
+    if isinstance(value, (tuple, list, set, frozenset)):
+        for item in value:
+            _require_reproducible_text(item)
+
+    elif isinstance(value, dict):
+        for key, item in value.items():
+            _require_reproducible_text(key)
+            _require_reproducible_text(item)
+
+    elif not isinstance(value, _PLAIN_DATA_TYPES):
+        raise ValueError(f"The text of {type(value).__name__} objects is not the same in every process")
+
+
 def literal_value(node: ast.AST) -> bool:
     """Find the value that an expression is known to always evaluate to.
 
@@ -1042,6 +1083,9 @@ def _literal_value(node: ast.AST) -> bool:
     ):
         left = literal_value(node.left)
         right = literal_value(node.right)
+        if isinstance(node.op, ast.Mod) and isinstance(left, (str, bytes)):
+            _require_reproducible_text(right)
+
         return constants.COMPARISON_OPERATORS[type(node.op)](left, right)
 
     if match_template(node, ast.Compare(left=object, ops={object}, comparators={object})):
@@ -1079,8 +1123,17 @@ def _literal_value(node: ast.AST) -> bool:
 
     # For e.g. "".join(("1", "2"))
     if match_template(node, ast.Call(func=ast.Attribute(value=ast.Constant), keywords=[])):
+        if node.func.attr.startswith("__"):
+            # 'abc'.__hash__() depends on the hash seed, (1).__sizeof__() on the platform, ...
+            raise ValueError("Cannot find a deterministic value for a call of a special method")
+
         node_value = literal_value(node.func.value)
         args = [literal_value(arg) for arg in node.args]
+        for arg in args:
+            _require_reproducible_iteration(arg)
+            if node.func.attr in {"format", "format_map"}:
+                _require_reproducible_text(arg)
+
         return getattr(node_value, node.func.attr)(*args)
 
     if isinstance(node, ast.Call) and not node.keywords:
@@ -1090,6 +1143,12 @@ def _literal_value(node: ast.AST) -> bool:
             and node.func not in _REBOUND_NAMES
         ):
             args = [literal_value(arg) for arg in node.args]
+            for arg in args:
+                if node.func.id not in _ORDER_INSENSITIVE_BUILTINS:
+                    _require_reproducible_iteration(arg)
+                if node.func.id in {"str", "repr", "ascii", "format"}:
+                    _require_reproducible_text(arg)
+
             return getattr(builtins, node.func.id)(*args)
 
     return ast.literal_eval(node)
